@@ -690,10 +690,29 @@ fn exec_twin(out: &mut Out, line: &str, w: &[&str]) -> (String, bool) {
             out.oracle_fail(&format!("router.twin.{}.{}", kind, name), &format!("{} answered\n  {}\nbut plain.handle answered\n  {}", name, r, r0), &ops);
         }
     }
+    // the context is an input too: with a context whose method differs from the query, every
+    // context-taking route of every wrapper must still agree (a wrapper that drops the context and
+    // lets the leaf re-derive one from the query would answer differently for the ctx kinds)
+    let ctx2 = CallContext::detached("/ctx/marker");
+    let mut first2: Option<(String, String)> = None;
+    for (hn, h) in handlers.iter() {
+        for route in ["handle_with_ctx", "handle_view"] {
+            let r = catch(|| if route == "handle_view" { h.handle_view(&view, &ctx2) } else { h.handle_with_ctx(&req, &ctx2) });
+            let got = norm(rid, &query, r);
+            match &first2 {
+                None => first2 = Some((format!("{}.{}", hn, route), got)),
+                Some((n0, g0)) => {
+                    if *g0 != got {
+                        out.oracle_fail(&format!("router.twin.{}.ctx.{}.{}", kind, hn, route), &format!("with an explicit context {}.{} answered\n  {}\nbut {} answered\n  {}", hn, route, got, n0, g0), &ops);
+                    }
+                }
+            }
+        }
+    }
     for (i, c) in counts.iter().enumerate() {
         let n = c.load(Ordering::SeqCst);
-        if n != 3 {
-            out.oracle_fail("router.twin.mw_count", &format!("middleware {} of {} ran {} times for 3 dispatches (order {})", i, nmw, n, order), &ops);
+        if n != 5 {
+            out.oracle_fail("router.twin.mw_count", &format!("middleware {} of {} ran {} times for 5 dispatches (order {})", i, nmw, n, order), &ops);
         }
     }
     // end to end: the same request over TCP through the real `Server` (read_message_into →
@@ -1076,8 +1095,8 @@ fn generate(args: &Args) -> Vec<String> {
     let thorough = args.thorough();
     let mut g = Gen { rng: Rng::new(args.seed), lines: vec![], idx: 0, next_id: 0 };
     // fixed corpus first: the named corner cases
-    for (root, path) in [("/s", "/s"), ("/s", "/s/"), ("/s", "/s/a//b/"), ("/s", "/s/~01/a~1b"), ("", ""), ("", "/"), ("/", "/x"), ("s", "/s/1/2/3/4/5/6/7/8/9/10/11/12/13/14/15/16"),
-        ("s", "/s/1/2/3/4/5/6/7/8/9/10/11/12/13/14/15/16/17"), ("/s", "/sx"), ("/s/", "/s//x")] {
+    for (root, path) in [("/s", "/s"), ("/s", "/s/"), ("/s", "/s/a//b/"), ("/s", "/s/~01/a~1b"), ("", ""), ("", "/"), ("/", "/x"), ("/s", "/s/1/2/3/4/5/6/7/8/9/10/11/12/13/14/15/16"),
+        ("/s", "/s/1/2/3/4/5/6/7/8/9/10/11/12/13/14/15/16/17"), ("s", "/s/1/2/3/4/5/6/7/8/9/10/11/12/13/14/15/16/17/18"), ("/s", "/sx"), ("/s/", "/s//x")] {
         g.push("match", &format!("struct {} {}", shex(root), shex(path)));
     }
     for (pre, path) in [("/api", "/api"), ("/api", "/api/x"), ("/api", "/apix"), ("/api/", "/api/x"), ("api", "/api/x/y"), ("", ""), ("", "/x"), ("/", "/x/y"), ("/api", "/ap"), ("//", "/anything")] {
@@ -1086,7 +1105,7 @@ fn generate(args: &Args) -> Vec<String> {
     for p in ["", "/", "/~01", "/~10", "/a~1b/~0~1", "//", "/a/"] {
         g.push("tok", &shex(p));
     }
-    let (n_scen, n_pairs, n_struct, n_twin_rounds) = if thorough { (8000, 100000, 120000, 200) } else { (500, 8000, 12000, 10) };
+    let (n_scen, n_pairs, n_struct, n_twin_rounds) = if thorough { (20000, 300000, 400000, 500) } else { (500, 8000, 12000, 10) };
     for _ in 0..n_scen {
         g.scenario();
     }
